@@ -12,6 +12,7 @@ import (
 	sdk "github.com/cosmos/cosmos-sdk/types"
 	authtypes "github.com/cosmos/cosmos-sdk/x/auth/types"
 	distrtypes "github.com/cosmos/cosmos-sdk/x/distribution/types"
+	govtypes "github.com/cosmos/cosmos-sdk/x/gov/types"
 	minttypes "github.com/cosmos/cosmos-sdk/x/mint/types"
 
 	"github.com/tendermint/fundraising/app"
@@ -88,7 +89,9 @@ func NewBase() (*Base, error) {
 	ctx := a.BaseApp.NewContext(false).WithBlockTime(T0).WithBlockHeight(1)
 	b := &Base{App: a, Ctx: ctx, K: a.FundraisingKeeper}
 	b.DistrAddr = authtypes.NewModuleAddress(distrtypes.ModuleName)
-	b.GovAddr = a.FundraisingKeeper.GetAuthority()
+	// the documented default authority: the x/gov module account (app_config.go sets no override);
+	// deliberately NOT read back from the keeper
+	b.GovAddr = authtypes.NewModuleAddress(govtypes.ModuleName).String()
 	for i := 0; i < NumAccounts; i++ {
 		coins := sdk.Coins{}
 		for _, d := range AllDenoms {
